@@ -447,7 +447,12 @@ class Impl:
                 if case["d"] is None:
                     r = body()
                 else:
+                    self._ncall = getattr(self, "_ncall", 0) + 1
                     with self.F.operator_overloading(op, type_promotion=case["d"][0], constant_promotion=case["d"][1]):
+                        if self._ncall % 4 == 0:
+                            # a nested block with the opposite options that has already ended: the outer block's rules apply again
+                            with self.F.operator_overloading(op, type_promotion=not case["d"][0], constant_promotion=not case["d"][1]):
+                                pass
                         r = body()
         except TypeError:
             return ("err", "ETypeError")
